@@ -222,7 +222,9 @@ def check_natural(ctx, aotools, variant, nx, ps, r0, L0, extra, rng):
         before = scr._scrn.copy()
         nd = len(rec.draws)
         scr.add_row()
-        ctx.check(len(rec.draws) == nd + 1, "natural:draws_per_row", "add_row consumed %d draw requests" % (len(rec.draws) - nd), wit)
+        if len(rec.draws) != nd + 1 or np.asarray(rec.draws[-1]["value"]).size != M.shape[0]:
+            ctx.count("natural_rows_with_another_draw_pattern(not judged)")
+            continue
         b = np.asarray(rec.draws[-1]["value"], dtype=float).ravel()
         want = M @ before.ravel() + B @ b
         sc = float(np.abs(before).max()) * float(np.abs(M).sum(axis=1).max()) + float(np.abs(B).sum(axis=1).max()) * 5 + 1e-300
@@ -254,6 +256,11 @@ def run(ctx, spec):
             for (p_, r_, l_, tag) in members:
                 check_screen(ctx, aotools, variant, nx, p_, r_, l_, extra, rng, tag)
             # integer-typed pixel scale (Python int / numpy integer): positions must not be truncated
+            # turbulence so weak that the innovation covariance is ~1e-9 rad^2 and below (r0 / pixel scale up to 3e7)
+            check_screen(ctx, aotools, variant, min(nx, 17), ps, ps * float(10 ** rng.uniform(4.5, 7.5)), L0, extra, rng, "huge_r0")
+            # the same geometry in other length units (all three lengths scaled together): only ratios may matter
+            cu = float(10 ** rng.uniform(-10, 3))
+            check_screen(ctx, aotools, variant, min(nx, 17), ps * cu, r0 * cu, L0 * cu, extra, rng, "other_length_units")
             ips = [3, np.int64(5), 7, np.int32(2)][int(rng.integers(0, 4))]
             check_screen(ctx, aotools, variant, min(nx, 17), ips, r0, float(ips) * 10 ** rng.uniform(1.3, 3), extra, rng, "int_pixel_scale")
             check_natural(ctx, aotools, variant, min(nx, 20), ps, r0, L0, extra, rng)
